@@ -241,9 +241,15 @@ def service_test_source(svcs):
             out.append('  %s_fired = -1; %s_in = NULL; %s_cl = (SvctFn)0; %s_data = NULL;' % (p, p, p, p))
             out.append('  %s(&svc.base, (const %s *)(const void *)&in_obj[%d], %s_c%d, &data_obj[%d]);'
                        % (stub, it, i, p, i, i))
-            out.append('  svct_name("SS", d);')
-            out.append('  printf(" %d %%d %%d %%d %%d\\n", %s_fired, %s_in == (const void *)&in_obj[%d], '
-                       '%s_cl == (SvctFn)%s_c%d, %s_data == (void *)&data_obj[%d]);' % (i, p, p, i, p, p, i, p, i))
+            # ... and once more with a NULL closure and NULL closure data (both are legitimate arguments: the handler decides
+            # what to do with them): the same handler must run and see exactly those arguments
+            out.append('  { int f1 = %s_fired, i1 = %s_in == (const void *)&in_obj[%d], c1 = %s_cl == (SvctFn)%s_c%d, d1 = %s_data == (void *)&data_obj[%d];'
+                       % (p, p, i, p, p, i, p, i))
+            out.append('    %s_fired = -1; %s_in = NULL; %s_cl = (SvctFn)%s_c%d; %s_data = (void *)&data_obj[%d];' % (p, p, p, p, i, p, i))
+            out.append('    %s(&svc.base, (const %s *)(const void *)&in_obj[%d], NULL, NULL);' % (stub, it, i))
+            out.append('    svct_name("SS", d);')
+            out.append('    printf(" %d %%d %%d %%d %%d\\n", f1 == %s_fired ? f1 : -2, i1 && %s_in == (const void *)&in_obj[%d], '
+                       'c1 && %s_cl == (SvctFn)0, d1 && %s_data == NULL); }' % (i, p, p, i, p, p))
         out.append('  memset(&t, 0xAA, sizeof t);')
         out.append('  %s__init(&t, %s_destroy);' % (lc, p))
         for m, _it, _ot in members:
